@@ -686,6 +686,15 @@ async fn garble(
                         (&mac_r_key_s_1 ^ &mac_r_y_key_s_y).xor_key(p_eval, delta),
                     );
 
+                    #[cfg(feature = "__verif")]
+                    let [row0, row1, row2, row3] = {
+                        let mut rows = [row0, row1, row2, row3];
+                        for (r, row) in rows.iter_mut().enumerate() {
+                            crate::verif::tap_bool("garble.row_bit", 4 * w + r, &mut row.0);
+                        }
+                        rows
+                    };
+
                     let label_x_0 = labels[x];
                     let label_y_0 = labels[y];
                     let label_x_1 = label_x_0 ^ delta;
